@@ -474,6 +474,50 @@ def run(ctx):
                     k = res.split()[0] + ("" if res.startswith("ok") else ":" + res.split()[1])
                     stream_kinds[k] = stream_kinds.get(k, 0) + 1
                 stream_n += len(chunk)
+    # the process environment must not matter: the time-related writers and readers (and a sample of the
+    # others) evaluated again in child processes under other local time zones, with -O, another hash seed
+    import json as _json
+    import os
+    import subprocess
+    wsample = [(fn, values.render(a)) for fn, a, res in py_w
+               if ("datetime" in fn or "timedelta" in fn)][::7][:400] + [(fn, values.render(a)) for fn, a, res in py_w[::997]]
+    rsample = [(fn, b.hex()) for fn, b, res in py_r if ("datetime" in fn or "timedelta" in fn) and len(b) <= 16][::5][:400]
+    child = ("import sys, json\n"
+             "sys.path.insert(0, %r); sys.path.insert(0, %r); sys.path.insert(0, %r)\n"
+             "import values, pyside\n"
+             "import c11\n"
+             "rt, wt = c11.readers_table(), c11.writers_table()\n"
+             "ws, rs = json.load(sys.stdin)\n"
+             "out = []\n"
+             "for fn, r in ws:\n"
+             "    try:\n"
+             "        out.append(pyside.run_writer(wt[fn], c11.to_py(fn, values.parse_str(r))))\n"
+             "    except Exception as e:\n"
+             "        out.append('skip ' + type(e).__name__)\n"
+             "for fn, h in rs:\n"
+             "    out.append(pyside.run_reader(rt[fn], bytes.fromhex(h)))\n"
+             "print(json.dumps(out))\n") % (os.path.join(common.REPO, "src"), os.path.join(common.VERIF, "harness"),
+                                            os.path.join(common.VERIF, "harness", "props"))
+    def run_child(env_, flags=()):
+        r = subprocess.run([common.PY, *flags, "-c", child], input=_json.dumps([wsample, rsample]).encode(),
+                           stdout=subprocess.PIPE, stderr=subprocess.PIPE, env={**os.environ, **env_}, timeout=600)
+        return r.stdout.decode().strip() or ("ERR " + r.stderr.decode()[-300:])
+    base_out = run_child({"TZ": "UTC"})
+    if base_out.startswith("ERR"):
+        ctx.notes.append("environment child failed: " + base_out[:200])
+    else:
+        for label, env_, flags in (("TZ=America/New_York", {"TZ": "America/New_York"}, ()), ("TZ=IST-5:30", {"TZ": "IST-5:30"}, ()),
+                                   ("python -O", {"TZ": "UTC"}, ("-O",)), ("PYTHONHASHSEED=7", {"TZ": "UTC", "PYTHONHASHSEED": "7"}, ())):
+            o = run_child(env_, flags)
+            if o != base_out:
+                try:
+                    a0, a1 = _json.loads(base_out), _json.loads(o)
+                    k = next(n for n in range(len(a0)) if a0[n] != a1[n])
+                    what = (wsample + rsample)[k]
+                    direct_fail.append({"fn": what[0], "value": str(what[1])[:200], "python": a1[k][:200], "expected": a0[k][:200],
+                                        "environment": label})
+                except Exception:  # noqa: BLE001
+                    direct_fail.append({"fn": "environment", "value": label, "python": o[:200], "expected": base_out[:200]})
     # tz_aware_from_i64 and write_tagged_field (no reader/writer shape)
     from kio.serial.readers import tz_aware_from_i64
     from kio.serial import writers as W
